@@ -2,7 +2,7 @@
    enumeration order of the set, an unsorted one does, and the facts about the regenerated loop table. *)
 From Coq Require Import NArith List Bool Lia ZifyBool Permutation Sorted.
 Import ListNotations.
-Require Import OPC.Uni OPC.NamesThm OPC.Order OPC.gen.GenLoops.
+Require Import OPC.Uni OPC.NamesThm OPC.Order OPC.Registry OPC.gen.GenLoops.
 Open Scope N_scope.
 
 (* ------------------------------------------------------------------ str_leb is a total order *)
@@ -219,6 +219,10 @@ Qed.
 (* stage A obligation: every place where the generator orders an unordered collection either sorts, or cannot reach the
    generated files, or is one of the lazy_imports loops of model.py.jinja (known finding lazy_unsorted) *)
 Theorem all_loops_sorted_except_known : forallb loop_ok_or_known gen_loops = true.
+Proof. vm_compute. reflexivity. Qed.
+
+(* stage A obligation: no place re-binds a class name in Schemas.classes_by_name in a last-registration-wins manner *)
+Theorem registrations_safe : forallb reg_ok gen_registrations = true.
 Proof. vm_compute. reflexivity. Qed.
 
 Theorem all_loops_sorted_if_fixed : lazy_fixed gen_loops = true -> forallb loop_ok gen_loops = true.
